@@ -28,6 +28,7 @@ import (
 	"net/url"
 	"os"
 	"strings"
+	"time"
 	"unicode"
 
 	"github.com/caddyserver/certmagic"
@@ -62,6 +63,9 @@ type c15Op struct {
 	// networked delete is lost; mem: the wrapped solver's CleanUp fails). The challenge is no longer
 	// pending all the same: the state is "cleaned" and nothing may be answered.
 	Fault bool `json:"fault,omitempty"`
+	// present (local): the context of the call is cancelled as soon as it has returned (the order that
+	// made it is over — or was an on-demand order tied to a handshake); clean: it is cancelled already
+	Cancel bool `json:"cancel,omitempty"`
 	// ask: a request served by this process in the middle of the history (its answer is not
 	// recorded; what matters is that answering must not change what later requests get)
 	Q *c15Query `json:"q,omitempty"`
@@ -76,6 +80,9 @@ type c15Query struct {
 	Host      string   `json:"host,omitempty"`
 	SNI       string   `json:"sni,omitempty"`
 	Protos    []string `json:"protos,omitempty"`
+	// Via "listener": the request is sent over TCP to the HTTP challenge listener that the local
+	// solver opened (instead of calling the handler through httptest)
+	Via string `json:"via,omitempty"`
 }
 
 type c15In struct {
@@ -102,6 +109,7 @@ type c15Env struct {
 	loadFail bool
 	cleanFault bool // a Delete of a token file is applied but reports an error
 	own      c15OwnAnswers
+	honour   bool // the storage honours context cancellation during the current scenario
 	host     string
 }
 
@@ -231,6 +239,15 @@ func (e *c15Env) apply(in *c15In, op c15Op) error {
 		if err != nil {
 			return err
 		}
+		if op.Cancel {
+			cctx, cancel := context.WithCancel(ctx)
+			if op.Kind == "clean" {
+				cancel()
+			} else {
+				defer cancel()
+			}
+			ctx = cctx
+		}
 		if op.Kind == "present" {
 			return s.Present(ctx, ch.acme())
 		}
@@ -320,6 +337,29 @@ func (e *c15Env) query(in *c15In, q c15Query) (c15Obs, *url.URL, error) {
 		u, err := url.ParseRequestURI(q.Target)
 		if err != nil {
 			return o, nil, err
+		}
+		if q.Via == "listener" {
+			// over the network, through the listener of the local issuer's HTTP solver (its wrapped
+			// handler is an empty ServeMux: "404 page not found")
+			rq, err := http.NewRequest(q.Method, fmt.Sprintf("http://%s:%d%s", e.host, e.issB[0].AltHTTPPort, q.Target), nil)
+			if err != nil {
+				return o, nil, err
+			}
+			rq.Host = q.Host
+			resp, err := (&http.Client{Timeout: 10 * time.Second, Transport: &http.Transport{DisableKeepAlives: true, Proxy: nil}}).Do(rq)
+			if err != nil {
+				o.Handled, o.Body = true, "!network error: "+err.Error() // agrees with nothing
+				return o, u, nil
+			}
+			b, _ := io.ReadAll(io.LimitReader(resp.Body, 4096))
+			resp.Body.Close()
+			o.Status, o.Body = resp.StatusCode, string(b)
+			o.WrappedRan = resp.StatusCode == 404 && strings.HasPrefix(o.Body, "404 page not found")
+			o.Handled = !o.WrappedRan
+			if o.Handled && (resp.StatusCode != 200 || !strings.HasPrefix(resp.Header.Get("Content-Type"), "text/plain")) {
+				o.Body = fmt.Sprintf("!status=%d ct=%s:", resp.StatusCode, resp.Header.Get("Content-Type")) + o.Body
+			}
+			return o, u, nil
 		}
 		ran := false
 		wrapped := http.HandlerFunc(func(w http.ResponseWriter, r *http.Request) { ran = true; w.Write([]byte("APP")) })
@@ -548,6 +588,12 @@ type c15Runner struct {
 func (r *c15Runner) runScenario(chals []c15Chal, ops []c15Op, queries []c15Query, descs []map[string]any) error {
 	e := r.env
 	in0 := &c15In{Chals: chals, Ops: ops}
+	// a history with cancelled contexts runs on a storage that honours cancellation
+	e.backend.HonourCtx = false
+	for _, op := range ops {
+		e.backend.HonourCtx = e.backend.HonourCtx || op.Cancel
+	}
+	defer func() { e.backend.HonourCtx = false }()
 	// what an earlier scenario left behind (only if a clean-up did not clean) is not this
 	// scenario's state: identifiers are unique per scenario, so it cannot be found by its requests
 	preMem := map[string]bool{}
@@ -930,6 +976,25 @@ func runC15(tier string, seed int64, outdir string, replay string) error {
 			scen{"local-store-removed", []c15Chal{b}, []c15Op{P("local", 0, 0), {Kind: "tamper", J: 0, Name: "b.example", V: "delete"}}, []string{"tampered"}, ""},
 		)
 	}
+	// ---- requests that arrive at the solver's OWN listener. The listener is shared by the orders of
+	// this process; the order that happened to open it is over (its context cancelled), another local
+	// order keeps it open, and a challenge of ANOTHER instance is validated through it.
+	type viaScen struct {
+		chals   []c15Chal
+		ops     []c15Op
+		queries []c15Query
+		descs   []map[string]any
+	}
+	var viaScens []viaScen
+	for round := 0; round < 2; round++ {
+		c0, c1, c2 := c15NewChal(r, "http-01", "opener.example"), c15NewChal(r, "http-01", "keeper.example"), c15NewChal(r, "http-01", "elsewhere.example")
+		vs := viaScen{chals: []c15Chal{c0, c1, c2}}
+		vs.ops = []c15Op{{Kind: "present", Place: "local", J: 0, C: 0, Cancel: round == 0}, P("local", 0, 1), P("remote", 0, 2)}
+		if round == 0 {
+			vs.ops = []c15Op{{Kind: "present", Place: "local", J: 0, C: 0, Cancel: true}, P("local", 0, 1), {Kind: "clean", Place: "local", J: 0, C: 0, Cancel: true}, P("remote", 0, 2)}
+		}
+		viaScens = append(viaScens, vs)
+	}
 	// ---- random histories
 	nRand := 14
 	if thorough {
@@ -1025,6 +1090,30 @@ func runC15(tier string, seed int64, outdir string, replay string) error {
 			return fmt.Errorf("scenario %s: %v", s.name, err)
 		}
 		w.Hist("scenario=" + s.name)
+	}
+	for n, vs := range viaScens {
+		ren := map[string]string{}
+		for i := range vs.chals {
+			ren[vs.chals[i].Ident] = c15Uniq(vs.chals[i].Ident, 5000+n*4+i)
+			vs.chals[i].Ident = ren[vs.chals[i].Ident]
+		}
+		states := []string{"cleaned", "local", "remote"}
+		if n == 1 {
+			states[0] = "local"
+		}
+		for ci, c := range vs.chals {
+			for _, hv := range []c15Variant{{"exact", c.Ident}, {"port80", c.Ident + ":80"}, {"other", "other.example"}, {"swapcase", c15SwapCase(c.Ident)}} {
+				for _, pv := range []c15Variant{{"exact", c15Base + "/" + c.Token}, {"longer", c15Base + "/" + c.Token + "x"}} {
+					vs.queries = append(vs.queries, c15Query{Kind: "http", Method: "GET", Target: pv.val, Host: hv.val, Via: "listener"})
+					vs.descs = append(vs.descs, map[string]any{"scenario": "via-solver-listener", "class": "listener-base-context", "targets": states[ci], "ident_kind": "dns", "chal_type": c.Type,
+						"query": "http", "via": "listener", "host": hv.name, "path": pv.name, "method": "GET"})
+				}
+			}
+		}
+		if err := run.runScenario(vs.chals, vs.ops, vs.queries, vs.descs); err != nil {
+			return fmt.Errorf("scenario via-solver-listener: %v", err)
+		}
+		w.Hist("scenario=via-solver-listener")
 	}
 	// ---- end-to-end: real orders on this node, validation requests at another node (another
 	// process) sharing the storage
